@@ -146,10 +146,15 @@ def set_owner_process(uid, gid, initgroups=False):
                 username = get_username(uid)
             except KeyError:
                 initgroups = False
+        else:
+            # no user whose supplementary groups could be taken
+            initgroups = False
 
+        # initgroups() only replaces the supplementary groups:
+        # the group id itself still has to be set
         if initgroups:
             os.initgroups(username, gid)
-        elif gid != os.getgid():
+        if gid != os.getgid():
             os.setgid(gid)
 
     if uid and uid != os.getuid():
